@@ -247,10 +247,19 @@ impl InnerNodeManage {
         if self.all_nodes.is_empty() {
             ProcessRange::new(0, 1)
         } else {
-            ProcessRange::new(
-                self.get_this_node().index as usize,
-                self.all_nodes.iter().filter(|(_, v)| v.is_valid()).count(),
-            )
+            // position and count over the same population (the valid nodes, in id order),
+            // which is also what NodeManage::route_addr uses to pick the owner of a service
+            let valid_ids: Vec<u64> = self
+                .all_nodes
+                .iter()
+                .filter(|(_, v)| v.is_valid())
+                .map(|(id, _)| *id)
+                .collect();
+            let index = valid_ids
+                .iter()
+                .position(|id| *id == self.local_id)
+                .unwrap_or(self.get_this_node().index as usize);
+            ProcessRange::new(index, valid_ids.len())
         }
     }
 
